@@ -114,3 +114,12 @@ Theorem C07_divF : forall x y : f64, fis_finite x = true -> fis_finite y = true 
 Proof. exact divF_correct. Qed.
 
 Print Assumptions C07_mulF.
+
+(** the recorded finding F9, as a theorem about the model: float addition reports
+    float_overflow for operands whose IEEE sum is finite (63.0 + the largest float) *)
+Theorem C07_addF_exact_or_overflow_refuted :
+  exists x y : f64, fis_finite x = true /\ fis_finite y = true /\ fis_finite (fadd x y) = true /\
+                    addF x y = Err (EExc FloatOverflow).
+Proof.
+  exists (of_int 63), (of_bits 9218868437227405311). vm_compute. repeat split; reflexivity.
+Qed.
